@@ -371,6 +371,10 @@ class CallMixin:
                 if fr.in_loop > getattr(fr, 'unrolled', 0):
                     base.complete = False
                 return None
+            if name == 'insert' and len(args) == 2 and isinstance(args[0], int) and not isinstance(args[0], bool) and base.complete and \
+                    -len(base.items) <= args[0] <= len(base.items) and not (fr.in_loop > getattr(fr, 'unrolled', 0)):
+                base.items.insert(args[0], args[1])         # a constant position in a list spelled out so far: the list it gives
+                return None
             if name == 'insert' and len(args) == 2:
                 if args[0] == 0:
                     base.items.insert(0, args[1])
